@@ -1,9 +1,10 @@
 // conch: concurrency harness.
-//   conch wedge  — C08: every ledger operation with the caller's context cancelled after k polls (k = 0..n+1),
-//                  truncation, DAG streaming with slow / vanishing consumers while proposals arrive; after each
-//                  scenario a probe operation must complete and no goroutine may be parked in the graph walker.
-//   conch race   — C18 (binary built with -race): pairs of ledger operations run concurrently on one node;
-//                  the race detector's reports go to GORACE log files which the runner parses.
+//
+//	conch wedge  — C08: every ledger operation with the caller's context cancelled after k polls (k = 0..n+1),
+//	               truncation, DAG streaming with slow / vanishing consumers while proposals arrive; after each
+//	               scenario a probe operation must complete and no goroutine may be parked in the graph walker.
+//	conch race   — C18 (binary built with -race): pairs of ledger operations run concurrently on one node;
+//	               the race detector's reports go to GORACE log files which the runner parses.
 package main
 
 import (
@@ -65,7 +66,7 @@ func (c *countCtx) Done() <-chan struct{} {
 	c.left--
 	return nil
 }
-func (c *countCtx) Err() error { return nil }
+func (c *countCtx) Err() error     { return nil }
 func budget(k int) context.Context { return &countCtx{Context: context.Background(), left: k} }
 
 type env struct {
@@ -307,7 +308,7 @@ func wedge(tier string, seed int64) (evals, nontriv int, kinds map[string]int, v
 		var wg sync.WaitGroup
 		var made int64
 		var mu sync.Mutex
-		finished := within(120*time.Second, func() {
+		finished := within(60*time.Second, func() {
 			for g := 0; g < 4; g++ {
 				wg.Add(1)
 				go func(g int) {
@@ -330,13 +331,15 @@ func wedge(tier string, seed int64) (evals, nontriv int, kinds map[string]int, v
 		evals++
 		kinds["auto-truncation.concurrent_proposals"]++
 		if !finished {
-			add("node-wedged-after:own-truncation-loop", "3300 proposals from 4 goroutines across the node's own truncation trigger (Config.Truncate = 2000) did not complete within 120 s")
+			add("node-wedged-after:own-truncation-loop", "3300 proposals from 4 goroutines across the node's own truncation trigger (Config.Truncate = 2000) did not complete within 60 s")
 		}
-		time.Sleep(300 * time.Millisecond)
-		probe(e, "own-truncation-loop", "the node's own truncation loop ran under concurrent proposals")
-		sn := e.ab.VerifSnapshot()
-		kinds[fmt.Sprintf("auto-truncation.checkpointed_vertices>0=%v", len(sn.StoredVertices) > 0)]++
-		if len(viol) == 0 {
+		if finished {
+			time.Sleep(300 * time.Millisecond)
+			probe(e, "own-truncation-loop", "the node's own truncation loop ran under concurrent proposals")
+		}
+		if len(viol) == 0 { // a wedged node is abandoned: its lock is held for good
+			sn := e.ab.VerifSnapshot()
+			kinds[fmt.Sprintf("auto-truncation.checkpointed_vertices>0=%v", len(sn.StoredVertices) > 0)]++
 			e.close()
 		}
 	}
@@ -565,7 +568,6 @@ func raceGossip(rounds int) (evals int, kinds map[string]int) {
 	time.Sleep(100 * time.Millisecond)
 	return
 }
-
 
 func main() {
 	mode := ""
